@@ -84,6 +84,8 @@ struct Plan {
     /// old worker "dies" by HardStop (false) or by losing its command channel (true)
     crash_drop_channel: bool,
     kinds: Vec<Kind>,
+    /// listeners configured with a `public_address` different from the address they are bound to
+    public: Vec<bool>,
     inflight: Vec<InflightPlan>,
     fleet_threads: usize,
     fleet_slow_pct: u64,
@@ -109,7 +111,7 @@ impl Plan {
             "scenario": self.scenario.name(),
             "successor_initial_state": if self.main_like_state { "as the main process builds it: listeners active" } else { "as e2e Worker::upgrade builds it: listeners inactive" },
             "old_worker_dies_by": if !self.scenario.is_crash() { Value::Null } else if self.crash_drop_channel { json!("command channel dropped") } else { json!("HardStop") },
-            "listeners": self.kinds.iter().enumerate().map(|(i, k)| format!("{}@:{}", k.name(), 8000 + i)).collect::<Vec<_>>(),
+            "listeners": self.kinds.iter().enumerate().map(|(i, k)| format!("{}@:{}{}", k.name(), 8000 + i, if self.public[i] { " public_address=203.0.113.x" } else { "" })).collect::<Vec<_>>(),
             "in_flight": self.inflight.iter().map(|p| p.json()).collect::<Vec<_>>(),
             "fleet_threads": self.fleet_threads, "fleet_percent_slow_first_byte": self.fleet_slow_pct, "burst_connections_while_nobody_accepts": self.burst,
             "pause_before_hand_over_ms": self.pre_ms, "soft_stop_before_successor_start": self.softstop_first, "gap_ms": self.gap_ms,
@@ -123,6 +125,7 @@ impl Plan {
             *kinds.entry(k.name()).or_default() += 1;
         }
         let phases: BTreeSet<&str> = self.inflight.iter().map(|p| p.phase.name()).collect();
+        let public: BTreeSet<&str> = self.kinds.iter().zip(&self.public).filter(|(_, p)| **p).map(|(k, _)| k.name()).collect();
         let bucket = |n: usize| match n {
             0 => 0,
             1 => 1,
@@ -132,11 +135,12 @@ impl Plan {
             _ => 200,
         };
         format!(
-            "{}{}/{}/{:?}/{:?}/{}/{:?}/b{}",
+            "{}{}/{}/{:?}/pub{:?}/{:?}/{}/{:?}/b{}",
             self.scenario.name(),
             if self.main_like_state { "+main" } else { "" },
             self.crash_drop_channel,
             kinds.iter().map(|(k, n)| (*k, bucket(*n))).collect::<Vec<_>>(),
+            public,
             phases,
             self.softstop_first,
             self.release_at,
@@ -178,6 +182,8 @@ fn make_plan(ctx: &Ctx, case: u64) -> Plan {
     for (i, k) in kinds.iter_mut().enumerate().take(3) {
         *k = [Kind::Http, Kind::Https, Kind::Tcp][(i + case as usize) % 3];
     }
+    // listener options that must not leak into the hand-over: an advertised address that is not the bound one
+    let public: Vec<bool> = kinds.iter().map(|_| rng.chance(2, 5)).collect();
     let mut inflight = Vec::new();
     if !scenario.is_crash() || rng.chance(1, 2) {
         let want = rng.urange(2, 6);
@@ -211,6 +217,7 @@ fn make_plan(ctx: &Ctx, case: u64) -> Plan {
         // dropped channel leaves the in-thread worker's sockets open, which a dead process would not)
         crash_drop_channel: rng.bool() && scenario != Scenario::CrashBeforeReturn,
         kinds,
+        public,
         inflight,
         fleet_threads: ctx.tier.pick(2, 3),
         fleet_slow_pct: *rng.pick(&[0u64, 20, 60]),
@@ -231,6 +238,8 @@ fn make_plan(ctx: &Ctx, case: u64) -> Plan {
 
 struct Cell {
     listeners: Vec<(Kind, SocketAddr)>,
+    /// `public_address` of each listener (None = not set): what the listener advertises, never what it is bound to
+    public: Vec<Option<SocketAddr>>,
     http_old: SocketAddr,
     http_new: SocketAddr,
     tcp_old: SocketAddr,
@@ -268,8 +277,9 @@ fn configure(w: &mut Worker, state: &mut ConfigState, cell: &Cell) -> Result<(),
     let key = std::fs::read_to_string("/repo/lib/assets/key.pem").map_err(|e| e.to_string())?;
     send_ok(w, state, RequestType::AddCluster(Cluster { cluster_id: "h".into(), ..Default::default() }))?;
     send_ok(w, state, RequestType::AddCluster(Cluster { cluster_id: "t".into(), ..Default::default() }))?;
-    for (kind, addr) in &cell.listeners {
+    for (li, (kind, addr)) in cell.listeners.iter().enumerate() {
         let tweak = |b: &mut ListenerBuilder| {
+            b.public_address = cell.public[li];
             b.front_timeout = Some(120);
             b.back_timeout = Some(120);
             b.request_timeout = Some(120);
@@ -526,6 +536,7 @@ fn execute(run: &mut Run, rep: &mut Report) -> Result<(), String> {
     let ip = lab::fresh_ip();
     let cell = Cell {
         listeners: plan.kinds.iter().enumerate().map(|(i, k)| (*k, lab::sa(ip, 8000 + i as u16))).collect(),
+        public: plan.public.iter().enumerate().map(|(i, p)| p.then(|| SocketAddr::from(([203, 0, 113, (i % 250) as u8 + 1], 443 + i as u16)))).collect(),
         http_old: lab::sa(ip, 9000),
         http_new: lab::sa(ip, 9001),
         tcp_old: lab::sa(ip, 9100),
@@ -1037,6 +1048,15 @@ fn judge_inflight(run: &mut Run, rep: &mut Report, plan: &Plan, results: &[Infli
             let f = format!("{:?}", r.fate);
             rep.obs(&format!("B.h2_outcome/{}/body_{}/gate_step_{}", f.split('(').next().unwrap_or(""), r.plan.resp_len, plan.release_at[r.plan.gate.min(1)]), 1);
         }
+        if r.detail["interim_responses"].as_array().is_some_and(|a| !a.is_empty()) {
+            rep.obs(&format!("B.interim_response_relayed_during_drain/{ph}"), 1);
+        }
+        if !r.plan.phase.is_request() && matches!(r.fate, Fate::Cut(_) | Fate::Hung(_)) {
+            // a TCP relay or an upgraded tunnel is not a request in flight: torn down at the stop,
+            // observed, not judged (a wrong byte in what was relayed before is: Fate::Corrupt)
+            rep.obs(&format!("B.exempt/{}_at_soft_stop", if r.plan.phase == Phase::TcpPipe { "tcp_relay_cut" } else { "websocket_tunnel_cut" }), 1);
+            continue;
+        }
         match &r.fate {
             Fate::Completed => {
                 rep.obs(&format!("B.inflight_completed/{ph}"), 1);
@@ -1061,8 +1081,6 @@ fn judge_inflight(run: &mut Run, rep: &mut Report, plan: &Plan, results: &[Infli
                 let exited_first = ack_us.is_some_and(|a| a <= r.end_us + 200_000);
                 let since_stop = sh.at("soft_stop_sent").map(|t| r.end_us.saturating_sub(t));
                 let sig = match r.plan.phase {
-                    Phase::TcpPipe => "tcp_relay_cut_at_soft_stop".to_owned(),
-                    Phase::WebSocket => "websocket_cut_at_soft_stop".to_owned(),
                     // two distinct ways an H2 connection loses streams during the drain: closed by
                     // the worker although streams were still open and moving, or nothing moves any
                     // more until the graceful deadline closes it
@@ -1160,6 +1178,13 @@ fn judge_fleet(run: &mut Run, rep: &mut Report, plan: &Plan, conns: &[FleetConn]
                 rep.obs(&format!("B.fleet_served_by/{}", r.tag.as_deref().unwrap_or("?")), 1);
             }
         }
+        if let Some((_, _, true)) = first_failed {
+            if c.kind == Kind::Tcp && !matches!(c.reqs.first().map(|r| &r.end), Some(ReqEnd::Corrupt(_))) {
+                // the relay was up (the backend's first byte arrived) and was torn down: not a request
+                rep.obs("B.exempt/tcp_relay_cut_at_soft_stop", 1);
+                continue;
+            }
+        }
         if let Some((why, timed, has_bytes)) = first_failed {
             let exempt = match plan.scenario {
                 // a lone worker closes its listening socket: connections it had not served yet are lost by design
@@ -1173,8 +1198,6 @@ fn judge_fleet(run: &mut Run, rep: &mut Report, plan: &Plan, conns: &[FleetConn]
                 rep.obs(&format!("B.exempt/first_request_lost/{}", plan.scenario.name()), 1);
             } else {
                 let sig = match owner {
-                    // the relay was up (the backend's first byte arrived) and was torn down
-                    "old" | "either" if c.kind == Kind::Tcp && has_bytes => "tcp_relay_cut_at_soft_stop".to_owned(),
                     "old" => "fresh_connection_dropped_by_old_worker".to_owned(),
                     "successor" => "connection_not_served_by_successor".to_owned(),
                     _ => "fresh_connection_not_served".to_owned(),
@@ -1215,6 +1238,7 @@ pub fn run_inproc(ctx: &Ctx, rep: &mut Report) {
     lab::raise_fd_limit();
     rep.assume("monitor B: the in-thread workers share one process, so 'old worker dying' is emulated by HardStop or by closing its command channel; a real SIGKILL is monitor C's job");
     rep.assume("monitor B: the successor's clusters point to backends tagged 'new' (same listeners, frontends, certificates) so that answers tell which worker served them");
+    rep.assume("monitor B: a TCP relay or an upgraded (WebSocket) tunnel is not a 'request in flight': their being torn down at a soft stop is counted (B.exempt/tcp_relay_cut_at_soft_stop, B.exempt/websocket_tunnel_cut_at_soft_stop), not judged; the bytes relayed before the cut are still compared with what was sent");
     rep.assume("monitor B: a request written on an idle kept-alive connection that is closed with zero response bytes is the inherent HTTP race and is not judged; after a plain soft stop of a lone worker, connections it had not started to answer are not judged either");
     rep.assume("monitor B: verdicts that rest on a wall-clock bound (no answer / no exit within the graceful deadline + slack) count only when the same case reproduces them when re-run alone");
     // (case, seed) of the witnesses of a replay file
@@ -1255,6 +1279,8 @@ pub fn run_inproc(ctx: &Ctx, rep: &mut Report) {
         "B.probes_served_by_successor",
         "B.manifest_pairs_checked",
         "B.inflight_completed/before_headers",
+        "B.interim_response_relayed_during_drain/expect_100_continue",
+        "B.interim_response_relayed_during_drain/early_hints_103",
     ] {
         if !control {
             rep.require(k);
@@ -1270,7 +1296,14 @@ pub fn run_inproc(ctx: &Ctx, rep: &mut Report) {
     for p in pending.into_inner().unwrap() {
         todo.entry(p.case).or_default().insert(p.sig);
     }
-    for (case, sigs) in todo.into_iter().take(4) {
+    // one case per distinct signature set is enough, two at most (each costs a watchdog)
+    let mut seen_sigs: BTreeSet<BTreeSet<String>> = BTreeSet::new();
+    let pending_cases = todo.len();
+    let todo: Vec<(u64, BTreeSet<String>)> = todo.into_iter().filter(|(_, sigs)| seen_sigs.insert(sigs.clone())).take(2).collect();
+    for _ in todo.len()..pending_cases {
+        rep.inconclusive("B: time-bounded miss not re-run alone (another case with the same signature, or the cap of two re-runs, stands for it)");
+    }
+    for (case, sigs) in todo {
         let mut scratch = rep.fork();
         run_case(ctx, case, &mut scratch, &Mutex::new(Vec::new()), true);
         let reproduced: Vec<&String> = sigs.iter().filter(|s| scratch.violations.iter().any(|v| &v.signature == *s)).collect();
